@@ -124,7 +124,7 @@ Section XMSS.
         destruct (IH (S k) tidx idx auth pk a nd) as [A B] end.
       + reflexivity.
       + reflexivity.
-      + simpl. f_equal. lia.
+      + cbn [a_w3]. f_equal. lia.
       + split.
         * rewrite A. reflexivity.
         * eapply eqlt_trans; eauto. unfold eqlt; simpl; tauto.
@@ -179,7 +179,7 @@ Section XMSS.
     { intros j Hj. unfold chunk. rewrite <- (app_nil_r (flat_map _ _)).
       rewrite chunk_flat_map_seq; [reflexivity| |lia]. intros; apply xmssNodeS_length; auto. }
     specialize (C Hauth ltac:(intros; reflexivity) (p_hp P) 0%nat ltac:(lia)).
-    simpl in C. rewrite N.shiftr_0_r in C. exact C.
+    exact C.
   Qed.
 
   Lemma shiftr_small idx h : idx < 2 ^ h -> N.shiftr idx h = 0.
